@@ -383,3 +383,50 @@ def timer_search(repo, prop, tier, seed=1):
             shutil.rmtree(os.path.join(WORK_BASE, "des-drivers-target-" + tag), ignore_errors=True)
         fcntl.flock(lockf, fcntl.LOCK_UN)
         lockf.close()
+
+
+def gate_search(repo, prop, tier, seed=1):
+    """C08 bounded replay (replay/gate_driver): random gate chains with channels on the real `des` crate."""
+    t0 = time.time()
+    os.makedirs(WORK_BASE, exist_ok=True)
+    lockf = open(os.path.join(WORK_BASE, "rt_driver.lock"), "w")
+    fcntl.flock(lockf, fcntl.LOCK_EX)
+    try:
+        count = 300000 if tier == "thorough" else 20000
+        res = {"what": "bounded replay of C08 on the real `des` crate: %d seeded random scenarios - 2..4 modules, one gate chain of 1..6 hops (gates g0..gk on random owners, also several on one module), each hop with or without a channel (latency 0.1..2 ms, bitrate 0 / 1 / 8 Mbit/s, jitter 0), hops connected in random order and orientation, one connected pair connected again; the forward walk from g0 must enumerate g0..gk and the backward walk from gk its mirror image; a gate with two peers must refuse a third (separate chain); the owner of g0 sends one message into g0 at 0 and the owner of gk one into gk at 1 s: each must be handled exactly once by the owner of the far end at send time + sum over the hops of (latency + size*8/bitrate) with sender id, receiver id and final gate in the header" % count,
+               "bound": "%d random scenarios; seed %d" % (count, seed), "labelled": "bounded", "counts_as_proof": False}
+        exe, err = _build_rt(repo, "gate_driver")
+        if exe is None:
+            res.update({"status": "not_run", "reason": "driver does not build against this tree: " + err, "wall_s": round(time.time() - t0, 2)})
+            return res
+        try:
+            p = subprocess.run([exe, "search", str(count), str(seed)], stdout=subprocess.PIPE, stderr=subprocess.PIPE, timeout=900)
+        except subprocess.TimeoutExpired:
+            res.update({"status": "mismatch", "mismatch": {"mismatch": True, "kind": "scenario-does-not-return", "props": "C08", "expected": "every scenario terminates", "observed": "no result within 900 s"}, "wall_s": round(time.time() - t0, 2)})
+            return res
+        line = (p.stdout.decode("utf8", "replace").strip().splitlines() or ["{}"])[-1]
+        try:
+            j = json.loads(line)
+        except Exception:
+            j = {}
+        res["wall_s"] = round(time.time() - t0, 2)
+        res["cmd"] = "gate_driver search %d %d   (built from replay/gate_driver against %s/des)" % (count, seed, repo)
+        if j.get("mismatch"):
+            res.update({"status": "mismatch", "mismatch": j})
+        elif "scenarios" in j:
+            res.update({"status": "no_mismatch", "scenarios": j["scenarios"], "sample": j.get("sample")})
+        else:
+            err = p.stderr.decode("utf8", "replace")
+            pan = [l for l in err.splitlines() if "panicked at" in l and "gate_driver" not in l]
+            if p.returncode == 101 and pan:
+                res.update({"status": "mismatch", "mismatch": {"mismatch": True, "kind": "chain-walk-or-connect-panicked", "props": "C08", "expected": "chains built from admissible connect calls can be walked and carry messages", "observed": (pan[-1] + " " + err[err.rfind(pan[-1]) + len(pan[-1]):][:200]).replace('"', "'")}})
+            else:
+                res.update({"status": "not_run", "reason": "driver crashed: " + err[-300:]})
+        return res
+    finally:
+        if repo != "/repo" and not os.environ.get("VERIF_KEEP_CACHE"):
+            tag = hashlib.sha1(repo.encode()).hexdigest()[:8]
+            shutil.rmtree(os.path.join(WORK_BASE, "gate_driver-" + tag), ignore_errors=True)
+            shutil.rmtree(os.path.join(WORK_BASE, "des-drivers-target-" + tag), ignore_errors=True)
+        fcntl.flock(lockf, fcntl.LOCK_UN)
+        lockf.close()
